@@ -33,7 +33,8 @@ RULE = ("complete files: generated record lists (1..40 atoms quick, ..300 thorou
         "unit = one (file, fault) pair; non-trivial = the cut / crash falls inside the count line or the atom block. "
         "Distinct = distinct files (sha1) x distinct fault positions.")
 ASSUMPTIONS = [
-    "crash model: the process stops; bytes reach the file in the order of the writer's write/seek calls (no reordered write-back)",
+    "crash model: the process stops; bytes reach the file in the order of the writer's write/seek calls (no reordered "
+    "write-back); appended text may be cut at any byte, the 10-byte in-place back-fill of the atom count is atomic",
     "an exception handled by the application that then closes the file normally (e.g. leaving a with-block) is not a crash state",
     "'raises an error' = any exception from opening and reading the partial file",
 ]
@@ -156,11 +157,17 @@ def crash_states(log):
             out.append(("after op %d (seek %d)" % (i, arg), bytes(buf), i > box_op))
         elif op == "write":
             data = arg.encode("ascii")
+            # partial writes are enumerated for appends only (they are byte-level truncations of the
+            # output so far); the in-place back-fill of the count is one operation of the statement's
+            # crash model ("between the steps of close") and is not torn
+            first = 1 if pos >= len(buf) else len(data)
             for k in range(1, len(data) + 1):
                 end = pos + k
                 if end > len(buf):
                     buf.extend(b"\0" * (end - len(buf)))
                 buf[pos + k - 1:pos + k] = data[k - 1:k]
+                if k < first:
+                    continue
                 complete = i >= box_op
                 tag = "after" if k == len(data) else "inside"
                 out.append(("%s op %d (write %d/%d bytes at %d)" % (tag, i, k, len(data), pos), bytes(buf), complete))
